@@ -448,6 +448,7 @@ pub struct JStats {
 	pub benign_conflicts: u64,
 	pub reissues: u64,
 	pub reissues_bumped: u64,
+	pub adequacy_checks: u64,
 	pub balance_checks: u64,
 	pub max_revoked_balances: usize,
 }
@@ -467,7 +468,20 @@ pub struct JusticeOracle {
 	/// announced `SpendableOutputs` descriptors by outpoint
 	pub descriptors: BTreeMap<OutPoint, SpendableOutputDescriptor>,
 	pub stats: JStats,
+	/// V's on-chain fee estimate over time: (V's height when it changed, sat/kw)
+	est_hist: Vec<(u32, u32)>,
+	/// per contested outpoint: V's height when it first issued a claim for it, and the latest version spending it
+	/// (feerate sat/kw, weight, value of all its inputs, txid)
+	first_claim_at: BTreeMap<OutPoint, u32>,
+	latest_claim: BTreeMap<OutPoint, (f64, u64, u64, Txid)>,
+	/// per contested outpoint: (feerate sat/kw, fee sat, txid) of the first claim of the current claiming period
+	first_claim: BTreeMap<OutPoint, (f64, u64, Txid)>,
+	cur_v_height: u32,
 }
+
+/// A claim that has been pending for this many blocks of V's chain reflects V's current fee estimate: the library's
+/// re-issue timer for justice claims is at most 15 blocks (the margin covers reloads and lagging delivery).
+pub const ADEQUACY_WINDOW: u32 = 24;
 
 fn fail(oracle: &str, detail: String) -> Failure {
 	Failure::new(oracle, detail)
@@ -475,7 +489,7 @@ fn fail(oracle: &str, detail: String) -> Failure {
 
 impl JusticeOracle {
 	pub fn new(sim: &Sim, v: usize, chan: ChannelId, tk: TkInfo) -> JusticeOracle {
-		let mut o = JusticeOracle { v, chan, tk, cur_log: 0, v_txids: BTreeSet::new(), v_txs: vec![], issued: BTreeMap::new(), issued_durable: BTreeMap::new(), descriptors: BTreeMap::new(), stats: JStats::default() };
+		let mut o = JusticeOracle { v, chan, tk, cur_log: 0, v_txids: BTreeSet::new(), v_txs: vec![], issued: BTreeMap::new(), issued_durable: BTreeMap::new(), descriptors: BTreeMap::new(), stats: JStats::default(), est_hist: vec![], first_claim_at: BTreeMap::new(), latest_claim: BTreeMap::new(), first_claim: BTreeMap::new(), cur_v_height: 0 };
 		// broadcasts of V before the cheat (e.g. its own force close) still count as V's transactions
 		for (_, e) in sim.log.iter() {
 			if let SEvent::Broadcast { node, tx, .. } = e {
@@ -494,9 +508,82 @@ impl JusticeOracle {
 		self.issued_durable = self.issued.clone();
 	}
 
+	/// V's fee estimate for on-chain claims is `rate` from V's height `h` on.
+	pub fn note_estimate(&mut self, h: u32, rate: u32) {
+		self.est_hist.push((h, rate));
+	}
+
+	/// "re-issues those claims with adequate fees until they are buried": a contested output that is still unspent
+	/// on the chain V was told, and that V has been claiming for at least `ADEQUACY_WINDOW` blocks, is claimed by
+	/// a latest version paying at least the lowest estimate V's estimator gave during that window (2 % tolerance),
+	/// provided the claimed value can pay for it with a wide margin.
+	pub fn adequacy_rule(&mut self, sim: &Sim, hv: u32) -> CaseResult {
+		if hv < ADEQUACY_WINDOW || self.est_hist.is_empty() {
+			return Ok(());
+		}
+		let from = hv - ADEQUACY_WINDOW;
+		// estimates in effect during [from, hv]: the last change at or before `from`, and every later one
+		let mut req: Option<u32> = None;
+		let mut before: Option<u32> = None;
+		for (h, r) in self.est_hist.iter() {
+			if *h <= from {
+				before = Some(*r);
+			} else {
+				req = Some(req.map(|x: u32| x.min(*r)).unwrap_or(*r));
+			}
+		}
+		let req = match (req, before) {
+			(Some(a), Some(b)) => a.min(b),
+			(Some(a), None) => a,
+			(None, Some(b)) => b,
+			(None, None) => return Ok(()),
+		};
+		for (_, _, st) in self.statuses(sim, hv) {
+			let Status::Open(tip) = st else { continue };
+			let Some(first) = self.first_claim_at.get(&tip) else { continue };
+			if *first > from {
+				continue;
+			}
+			let Some((rate, weight, in_sum, id)) = self.latest_claim.get(&tip).cloned() else { continue };
+			let need = req as u64 * weight / 1000;
+			if in_sum < need * 2 + 2_000 {
+				continue;
+			}
+			self.stats.adequacy_checks += 1;
+			if std::env::var("C06_ADEQ_DEBUG").is_ok() {
+				vcore::report(&format!("adequacy hv={} tip={} first={} rate={:.1} req={} in_sum={} weight={} hist={:?}", hv, tip, first, rate, req, in_sum, weight, self.est_hist));
+			}
+			// "until they are buried": a claim that stays unconfirmed is re-issued with a higher fee (the library
+			// bumps by 25 % at every timer even when its estimate does not move); refusals because the bumped fee
+			// would leave less than the dust limit are the listed split-remainder finding
+			if let Some((frate, ffee, fid)) = self.first_claim.get(&tip).cloned() {
+				if rate <= frate * 1.02 && in_sum >= ffee * 4 + 2_000 && !sim.w.noted(self.v, "bump-refused-below-dust") {
+					return Err(fail(
+						"fee-inadequate",
+						format!("V has been claiming {} since its height {} and the output is still unspent at its height {}, yet the latest claim {} pays {:.1} sat/kw, no more than the first one {} ({:.1} sat/kw, {} sat of {} sat claimed): the claim was never bumped in {} blocks", tip, first, hv, id, rate, fid, frate, ffee, in_sum, hv - first),
+					)
+					.with_key("fee-inadequate/claim-never-bumped"));
+				}
+			}
+			if rate < req as f64 * 0.98 {
+				return Err(fail(
+					"fee-inadequate",
+					format!("V has been claiming {} since its height {} and the output is still unspent at its height {}; the latest claim {} pays {:.1} sat/kw although V's fee estimate has been at least {} sat/kw for the last {} blocks (claimed value {} sat, weight {})", tip, first, hv, id, rate, req, ADEQUACY_WINDOW, in_sum, weight),
+				)
+				.with_key("fee-inadequate/claim-not-bumped-to-estimate"));
+			}
+		}
+		Ok(())
+	}
+
 	/// V was reloaded from its persisted monitor: fee monotonicity continues from the persisted state.
 	pub fn on_reload(&mut self) {
 		self.issued = self.issued_durable.clone();
+		// a reloaded monitor starts its re-issue timers again from what was persisted: the claiming periods the
+		// adequacy rules look at start over
+		self.first_claim_at.clear();
+		self.first_claim.clear();
+		self.latest_claim.clear();
 	}
 
 	fn prevout(&self, sim: &Sim, op: &OutPoint) -> Option<TxOut> {
@@ -544,6 +631,8 @@ impl JusticeOracle {
 	/// been told about the chain when it started the action that produced these broadcasts (a conflict with
 	/// something confirmed above that height is not V's fault).
 	pub fn scan(&mut self, sim: &Sim, h_known: u32) -> CaseResult {
+		// claims found now were issued at or before the height V has reached
+		self.cur_v_height = sim.c06_height_of(self.v);
 		let new: Vec<SEvent> = sim.log[self.cur_log..].iter().map(|(_, e)| e.clone()).collect();
 		self.cur_log = sim.log.len();
 		let mut missing: Vec<(Txid, OutPoint)> = vec![];
@@ -640,6 +729,11 @@ impl JusticeOracle {
 					return Err(fail("fee-monotonic", format!("claim for {:?} re-issued as {} with fee {} sat / {:.1} sat/kw after {} with {} sat / {:.1} sat/kw", key, id, fee, rate, pid, pfee, prate)));
 				}
 			}
+		}
+		for op in key.iter() {
+			self.first_claim.entry(*op).or_insert((rate, fee, id));
+			self.first_claim_at.entry(*op).or_insert(self.cur_v_height);
+			self.latest_claim.insert(*op, (rate, tx.weight().to_wu(), in_sum, id));
 		}
 		self.issued.insert(key, (fee, rate, id));
 		Ok(())
